@@ -88,3 +88,12 @@ def run(F, R):
         R.check(keyed, "R04.3", key + ":one-future-per-occurrence", b.where(), "push keyed by response key",
                 "one future is pushed per field *occurrence*; nothing groups selections by response key before execution, "
                 "so `{ f f }` (or `mutation { inc inc }`) invokes the resolver twice and merges the two results afterwards")
+
+    R.rule("R04.4", "sub-selections of fields sharing a response key are merged recursively at every level: insert_value recurses for object values and for "
+                    "the object elements of list values; it never overwrites/extends an existing object wholesale")
+    iv = F.one(CONT + r"::insert_value$", kind="fn")
+    rec = iv.calls_to(CONT + r"::insert_value$")
+    ext = [c for c in iv.calls() if c.callee and re.search(r"indexmap::map::.*::(extend|append)$|Extend::extend$|::or_insert$|::or_insert_with$", c.callee)]
+    R.check(len(rec) >= 2 and not ext, "R04.4", "insert_value:recursive-merge-at-every-level", iv.where(), "%d recursive merges, no wholesale extend" % len(rec),
+            "insert_value merges an object level with %s instead of recursing (%d recursive calls): nested selections under a repeated response key are lost"
+            % (sorted({c.callee.split("::")[-1] for c in ext}), len(rec)))
